@@ -58,6 +58,9 @@ MC_AlphaCore == {1, 2, 3, 4, 6, 7, 8, 10, 12, 15, 16}
 MC_AlphaFills == {2, 3, 6, 4, 19, 8}
 \* a sale, two reorganisations on the next day, a repurchase inside the window, a holding bought before
 MC_AlphaSplits == {1, 6, 10, 18, 4, 11, 20}
+\* a holding, a sale, and 30 days later a day on which the security is bought AND sold while the other security is bought too
+\* (the same-day reservation of that purchase, next to the other security's lines, in every order)
+MC_AlphaResv == {1, 6, 4, 8, 14, 13, 12}
 Injective(f) == \A i, j \in DOMAIN f : i # j => f[i] # f[j]
 
 \* line lists written by the harness (seeded random files of 8-14 lines, three securities, eight day slots): far longer
